@@ -53,6 +53,47 @@ def _key_components(k):
 
 
 _REBIND_CACHE = {}
+FRESH_MAKERS = {"copy", "deepcopy", "__new__", "replace"}
+
+
+def fresh_locals(fn_node):
+    """Local names bound to an object CREATED in this function (a constructor call, copy.copy(...), type(self)(...), cls(...)): attribute
+    stores on them initialise a new object, they do not modify an existing one."""
+    out = set()
+    for n in ast.walk(fn_node):
+        if isinstance(n, ast.Assign) and len(n.targets) == 1 and isinstance(n.targets[0], ast.Name) and isinstance(n.value, ast.Call):
+            f = n.value.func
+            nm = f.attr if isinstance(f, ast.Attribute) else getattr(f, "id", None)
+            if nm in FRESH_MAKERS or (isinstance(nm, str) and nm[:1].isupper()) or nm == "cls" \
+                    or (isinstance(f, ast.Call) and isinstance(f.func, ast.Name) and f.func.id == "type"):
+                out.add(n.targets[0].id)
+    return out
+
+
+def construction_only(db, fi, _depth=0):
+    """A private method that is only ever invoked while an object is being set up: from a constructor on `self`, or on an object the caller
+    has just created (`sample = copy.copy(self); sample._sort_scores()`).  Stores it makes to self are initialisation, not mutation."""
+    if fi.name == "__init__":
+        return True
+    if not fi.name.startswith("_") or fi.name.startswith("__") or _depth > 2:
+        return False
+    sites = 0
+    for g in db.all_functions():
+        fresh = None
+        for n in ast.walk(g.node):
+            if isinstance(n, ast.Call) and isinstance(n.func, ast.Attribute) and n.func.attr == fi.name:
+                sites += 1
+                base = n.func.value
+                if isinstance(base, ast.Name) and base.id == "self":
+                    if not (g is not fi and construction_only(db, g, _depth + 1)):
+                        return False
+                elif isinstance(base, ast.Name):
+                    fresh = fresh_locals(g.node) if fresh is None else fresh
+                    if base.id not in fresh:
+                        return False
+                else:
+                    return False
+    return sites > 0
 
 
 def rebindable_attrs(db, ci):
@@ -71,7 +112,7 @@ def rebindable_attrs(db, ci):
             if not related:
                 continue
             for mname, m in list(c.methods.items()) + [(n_ + ".setter", f_) for n_, f_ in c.setters.items()]:
-                if mname == "__init__":
+                if mname == "__init__" or (not mname.endswith(".setter") and construction_only(db, m)):
                     continue
                 for node in ast.walk(m.node):
                     tg = node.targets if isinstance(node, ast.Assign) else [node.target] if isinstance(node, (ast.AugAssign, ast.AnnAssign)) else []
@@ -95,7 +136,7 @@ def attr_writers(db, ci):
             if not related:
                 continue
             for mname, m in list(c.methods.items()) + [(n_ + ".setter", f_) for n_, f_ in c.setters.items()]:
-                if mname == "__init__":
+                if mname == "__init__" or (not mname.endswith(".setter") and construction_only(db, m)):
                     continue
                 for node in ast.walk(m.node):
                     tg = node.targets if isinstance(node, ast.Assign) else [node.target] if isinstance(node, (ast.AugAssign, ast.AnnAssign)) else []
